@@ -163,3 +163,14 @@ pub open spec fn blind_challenge_input(c: G1Projective, cbar: G1Projective, gens
 pub open spec fn blind_challenge_spec<CS: BbsCiphersuite>(c: G1Projective, cbar: G1Projective, gens: Seq<G1Projective>, api_id: Seq<u8>) -> Scalar {
     h2s_spec::<CS>(blind_challenge_input(c, cbar, gens), api_id + CS::H2S@)
 }
+
+// ---- key generation (3.4.1 KeyGen, 3.4.2 SkToPk) ------------------------------------------------------
+/// key_dst defaults to api_id || "KEYGEN_DST_"
+pub open spec fn key_dst_eff<CS: BbsCiphersuite>(key_dst: Option<&[u8]>) -> Seq<u8> {
+    match key_dst { Some(d) => d@, None => CS::API_ID@ + CS::KEYGEN_DST@ }
+}
+
+/// P1: the fixed base point of the ciphersuite
+pub open spec fn p1_spec<CS: BbsCiphersuite>() -> G1Projective {
+    g1_from_hex(CS::P1@)->0
+}
